@@ -396,7 +396,10 @@ def format_message(I, args, kwargs):
     return I.fresh('message', 'str')
 
 
-def getattr_hook(I, v, name):
+def context_getattr_hook(I, v, name):
+    """obj._context of the model objects is the request context."""
+    if name == '_context' and isinstance(v, Obj):
+        return I.ghost['ctx']
     return NotImplemented
 
 
